@@ -165,7 +165,13 @@ func MakeHash(args []Sexp, typename string, env *Zlisp) (*SexpHash, error) {
 		factory.ReflectName = typename
 		factory.DisplayAs = typename
 
-		GoStructRegistry.RegisterUserdef(factory, false, typename)
+		// "field" is the record kind (field ...) builds for a struct
+		// declaration, not a type: registering it process-wide made every
+		// later interpreter bind the name to a type, which shadowed the
+		// field builder and broke (struct ...) there.
+		if typename != "field" {
+			GoStructRegistry.RegisterUserdef(factory, false, typename)
+		}
 	}
 
 	return &hash, nil
